@@ -19,7 +19,9 @@ class C12(fw.Prop):
     design_ref = "DESIGN.md §6 C12"
     rule = ("messages: all of length 0 and 1 (256), all of length 2 (65 536, thorough), every table index "
             "hit with every register high byte, random messages of length 0..4096; each compared with "
-            "Spec.Crc.fcs (driver) in both byte orders and with an independent bitwise X-25 in the harness; "
+            "Spec.Crc.fcs (driver) in both byte orders and with an independent bitwise X-25 in the harness; information frames "
+            "whose check value contains the flag byte 0x7E or a zero byte in either position, frame objects serialised, modified and serialised "
+            "again, valid frames parsed back; "
             "non-trivial = distinct message")
     trusted_base = ["extract.py prints crc_ccitt_table / reverse_byte graph / constants as they are in the running code",
                     "Spec.Crc is CRC-16/X-25 as in ISO/IEC 13239 (cross-checked against an independent bitwise implementation and the check string)"]
@@ -32,7 +34,42 @@ class C12(fw.Prop):
     level_note = ("Trusted: Lean kernel (+propext, Classical.choice, Quot.sound); extract.py; that Model.Crc mirrors the three short "
                   "procedures of crc.py (validated by the correspondence run); Spec.Crc as the reading of ISO/IEC 13239.")
 
+    def make_frame_case(self, d):
+        """the check sequences as the frame classes emit and verify them (anchor hdlc/frames.py): an information frame is
+        serialised, then the same object is given another payload / receive number and serialised again (the check value
+        must be that of the *current* content), and the bytes are parsed back (a correct check value must be accepted,
+        whatever its two bytes are - the flag byte 0x7E included)."""
+        payload, first = bytes.fromhex(d["payload"]), bytes.fromhex(d["first"])
+        # header: format, destination (client 16), source (server 1/17), control - written by hand
+        ctrl = (d["rsn"] << 5) | 0x10 | (d["ssn"] << 1)
+        n = 2 + 1 + 2 + 1 + 2 + len(payload) + 2
+        head = (0xA000 | n).to_bytes(2, "big") + bytes([0x21, 0x02, 0x23, ctrl])
+        body = head + x25_ref(head) + payload
+
+        def impl():
+            from dlms_cosem.hdlc import address, frames
+            c, srv = address.HdlcAddress(16, None, "client"), address.HdlcAddress(1, 17, "server")
+            f = frames.InformationFrame(c, srv, payload=first, send_sequence_number=d["ssn"], receive_sequence_number=(d["rsn"] + 1) % 8)
+            f.to_bytes()
+            f.payload = payload
+            f.receive_sequence_number = d["rsn"]
+            out = f.to_bytes()
+            note = ""
+            if bytes(out[1:-3]) != body:
+                note += " !content-differs"
+            wire = b"\x7e" + body + x25_ref(body) + b"\x7e"
+            try:
+                back = frames.InformationFrame.from_bytes(wire)
+                if back.payload != payload:
+                    note += " !payload-differs"
+            except Exception as e:  # noqa
+                note += " !valid-frame-refused:" + type(e).__name__
+            return "ok " + fw.hx(out[-3:-1]) + note
+        return fw.Case(f"crc spec {fw.hx(body)}", impl, "prop", d, tags=("frame", "fcs-has-flag" if 0x7E in x25_ref(body) else "frame"))
+
     def make_case(self, d):
+        if d.get("frame"):
+            return self.make_frame_case(d)
         from dlms_cosem.crc import CRCCCITT
         msg = bytes.fromhex(d["msg"])
         lsb = bool(d.get("lsb_first", False))
@@ -80,6 +117,25 @@ class C12(fw.Prop):
             else:
                 msg = bytes(rng.getrandbits(8) for _ in range(ln))
             yield self.make_case({"msg": msg.hex(), "lsb_first": rng.random() < 0.2})
+        # frames: re-used frame objects, and check values that contain the flag byte or a zero byte
+        want = {"7e-first": 0, "7e-second": 0, "00-first": 0, "00-second": 0}
+        k = 0
+        while min(want.values()) < (6 if deep else 2) and k < 400000:
+            k += 1
+            payload = b"\xe6\xe7\x00" + k.to_bytes(3, "big")
+            ssn, rsn = k % 8, (k // 8) % 8
+            ctrl = (rsn << 5) | 0x10 | (ssn << 1)
+            head = (0xA000 | (2 + 1 + 2 + 1 + 2 + len(payload) + 2)).to_bytes(2, "big") + bytes([0x21, 0x02, 0x23, ctrl])
+            fcs = x25_ref(head + x25_ref(head) + payload)
+            key = {(0x7E, 0): "7e-first", (0x7E, 1): "7e-second", (0, 0): "00-first", (0, 1): "00-second"}
+            hit = [key[(b, i)] for i, b in enumerate(fcs) if (b, i) in key]
+            if hit and want[hit[0]] < (6 if deep else 2):
+                want[hit[0]] += 1
+                yield self.make_case({"frame": True, "payload": payload.hex(), "first": "e6e700aa", "ssn": ssn, "rsn": rsn})
+        for _ in range(400 if deep else 40):
+            yield self.make_case({"frame": True, "payload": bytes(rng.getrandbits(8) for _ in range(rng.randint(1, 60))).hex(),
+                                  "first": bytes(rng.getrandbits(8) for _ in range(rng.randint(1, 20))).hex(),
+                                  "ssn": rng.randrange(8), "rsn": rng.randrange(8)})
 
 
 PROP = C12()
